@@ -106,46 +106,41 @@ func parseListMap(p *parser, bp oper.BP, t *token.Token) ast.Expr {
 		rg := pos.Range(t, rb)
 		return ast.Map([]ast.Pair{}, rg)
 	}
-	return p.any("list or map", parseList(t), parseMap(t))
+	return p.any("list or map", parseListOrMap(t))
 }
 
-func parseList(t *token.Token) func(p *parser) ast.Expr {
+// parseListOrMap 解析完第一个元素后根据后面是否跟着 `:` 决定是 list 还是 map.
+// 之前是先按 list 解析, 失败后回溯再按 map 解析, 嵌套 n 层的非法输入要解析 2^n 次
+func parseListOrMap(t *token.Token) func(p *parser) ast.Expr {
 	return func(p *parser) ast.Expr {
 		elems := make([]ast.Expr, 0)
-		for {
+		pairs := make([]ast.Pair, 0)
+		isMap := false
+		for i := 0; ; i++ {
 			if p.peek().Kind == token.RIGHT_BRACKET {
 				break
 			}
 			el := p.expr(0)
-			elems = append(elems, el)
+			if i == 0 {
+				isMap = p.peek().Kind == token.COLON
+			}
+			if isMap {
+				p.mustEat(token.COLON)
+				v := p.expr(0)
+				pairs = append(pairs, ast.Pair{Key: el, Val: v})
+			} else {
+				elems = append(elems, el)
+			}
 			if p.tryEat(token.COMMA) == nil {
 				break
 			}
 		}
 		rb := p.mustEat(token.RIGHT_BRACKET)
 		rg := pos.Range(t, rb)
+		if isMap {
+			return ast.Map(pairs, rg)
+		}
 		return ast.List(elems, rg)
-	}
-}
-
-func parseMap(t *token.Token) func(p *parser) ast.Expr {
-	return func(p *parser) ast.Expr {
-		pairs := make([]ast.Pair, 0)
-		for {
-			if p.peek().Kind == token.RIGHT_BRACKET {
-				break
-			}
-			k := p.expr(0)
-			p.mustEat(token.COLON)
-			v := p.expr(0)
-			pairs = append(pairs, ast.Pair{Key: k, Val: v})
-			if p.tryEat(token.COMMA) == nil {
-				break
-			}
-		}
-		rb := p.mustEat(token.RIGHT_BRACKET)
-		rg := pos.Range(t, rb)
-		return ast.Map(pairs, rg)
 	}
 }
 
